@@ -240,12 +240,14 @@ static uint64_t run_op(int op) {
       break;
     }
     case 16:
-    case 17: {  // simple, thread-local table keyed by (m, divisor, bound): two parameter sets
-      const uint64_t m = (op == 16) ? 8 : 16;
-      const double div = (op == 16) ? 4. : 16.;
+    case 17: {  // simple, thread-local table keyed by (m, divisor, bound): same m and divisor, bounds on both sides of the
+                // kernel threshold (50); the values of the wide-bound call need the wide kernel (|x / divisor| up to 2^53)
+      const uint64_t m = 16;
+      const double div = 16.;
       int64_t* y = al(16 * m);
       double* v = al(16 * m);
       fill_dbl(v, 2 * m, &s);
+      if (op == 17) for (uint64_t i = 0; i < 2 * m; ++i) v[i] *= 0x1p38;
       reim_to_znx64_simple(m, div, (op == 16) ? 40 : 60, y, v); h = fnv(h, y, 16 * m);
       free(y); free(v);
       break;
@@ -297,7 +299,7 @@ static uint64_t run_op(int op) {
 // parameters of the calls whose thread-local table is keyed by (m, divisor, bound/overhead): reported in Enter
 static void op_params(int op, int64_t* m, double* div, int64_t* bnd) {
   *m = 0; *div = 0; *bnd = 0;
-  if (op == 16) { *m = 8; *div = 4.; *bnd = 40; }
+  if (op == 16) { *m = 16; *div = 16.; *bnd = 40; }
   if (op == 17) { *m = 16; *div = 16.; *bnd = 60; }
   if (op == 18) { *m = 16; *div = 16. * 1048576.; *bnd = 10; }
   if (op == 19) { *m = 16; *div = 1024. * 1048576.; *bnd = 16; }
